@@ -38,8 +38,10 @@
        the quorum-th largest match, i.e. the largest k with >= quorum acks >= k; any
        smaller k > commit with term(k) = term is allowed here as well).
        Acks are not checked for their [ldr] field.
-   D6  SendAE: any prev <= last index and any number of following entries (the code:
-       prev = next-1 from the flow-control state, size-limited).  SendHB: any commit
+   D6  SendAE: any prev <= last index, any number of following entries and any
+       leaderCommit <= commit (the code: prev = next-1 from the flow-control state,
+       size-limited, leaderCommit = commit; smaller values are what InstallSnapshot needs
+       at stage 2).  SendHB: any commit
        value <= min(commit, some acked match of [to]) (the code: exactly the min with
        remote.match, which is the largest ack it received in this term, or 0).
    D7  Panics of the code are guards here (a panicking node makes no step):
@@ -99,7 +101,7 @@ Inductive label :=
 | LHandleRV (i : id) (t : nat) (cand : id) (li lt : nat)
 | LBecomeLeader (i : id)
 | LPropose (i : id) (p : nat)
-| LSendAE (i : id) (prev len : nat)
+| LSendAE (i : id) (prev len lc : nat)
 | LHandleAE (j : id) (t : nat) (ldr : id) (prev pt : nat) (ents : list entry) (lc : nat)
 | LAdvanceCommit (i : id) (k : nat)
 | LSendHB (i j : id) (c : nat)
@@ -223,13 +225,14 @@ Section Net.
         (mkNet (upd (nodes n) i (mkNode t (voted x) Leader l' (commit x) (hcommit x)))
                (Ack t i i (length l') :: msgs n)
                (lead n) (llog0 n) (updg (llog n) t l'))
-  | SASendAE n i prev len :
+  | SASendAE n i prev len lc :
       let x := nodes n i in
       role x = Leader ->
       prev <= length (log x) ->
-      step n (LSendAE i prev len)
+      lc <= commit x ->
+      step n (LSendAE i prev len lc)
         (mkNet (nodes n)
-               (AE (term x) i prev (term_at (log x) prev) (firstn len (skipn prev (log x))) (commit x)
+               (AE (term x) i prev (term_at (log x) prev) (firstn len (skipn prev (log x))) lc
                    :: msgs n)
                (lead n) (llog0 n) (llog n))
   | SAHandleAEStale n j t ldr prev pt ents lc :
@@ -372,12 +375,12 @@ Section Net.
                     (Ack t i i (length l') :: msgs n)
                     (lead n) (llog0 n) (updg (llog n) t l'))
       else None
-    | LSendAE i prev len =>
+    | LSendAE i prev len lc =>
       let x := nodes n i in
-      if role_eqb (role x) Leader && (prev <=? length (log x)) then
+      if role_eqb (role x) Leader && (prev <=? length (log x)) && (lc <=? commit x) then
         Some (mkNet (nodes n)
                     (AE (term x) i prev (term_at (log x) prev) (firstn len (skipn prev (log x)))
-                        (commit x) :: msgs n)
+                        lc :: msgs n)
                     (lead n) (llog0 n) (llog n))
       else None
     | LHandleAE j t ldr prev pt ents lc =>
